@@ -3,7 +3,7 @@
    runner and by vm_compute inside Coq (Cases_*.v). *)
 From Coq Require Import List NArith ZArith Bool String.
 From Coq.Strings Require Import Byte.
-From OAP Require Import Base.Bytes Base.Res Base.Text Gen.Consts Model.Handshake Model.Metadata Model.Header Model.Frame Model.Stream Model.World Model.Ids Model.Waiters Model.Dispatch Model.WritePath.
+From OAP Require Import Base.Bytes Base.Res Base.Text Gen.Consts Model.Handshake Model.Metadata Model.Header Model.Frame Model.Stream Model.World Model.Ids Model.Waiters Model.Dispatch Model.WritePath Model.Recovery.
 Import ListNotations.
 Local Open Scope N_scope.
 
@@ -512,6 +512,48 @@ Definition run_wp (op : bytes) (args : list bytes) : bytes :=
     | _ => bad end
   else bad.
 
+(* ---- recovery (C08) ----
+   rc.run <max> <getter 0|1> <session n|-> <count> <attempt> ...
+   attempt: d<0|1>x<0|1>t<0|1>:<answers joined by .>   answers: k<sid> | u | o | d | s  ("-" = none)
+   output: events joined by space, then " | " result count session *)
+Definition parse_answer (b : bytes) : option answer :=
+  match b with
+  | k :: rest =>
+      if byte_eqb k "k"%byte then option_map AnsOk (undec rest)
+      else if byte_eqb k "u"%byte then Some AnsUnauth else if byte_eqb k "o"%byte then Some AnsOtherStatus
+      else if byte_eqb k "d"%byte then Some AnsDropped else if byte_eqb k "s"%byte then Some AnsSilence else None
+  | [] => None
+  end.
+Definition parse_attempt (b : bytes) : option attempt :=
+  match split_on ":"%byte b with
+  | [fl; ans] =>
+      match fl with
+      | [_; d; _; x; _; t] =>
+          obind (unbool [d]) (fun d => obind (unbool [x]) (fun x => obind (unbool [t]) (fun t =>
+            obind (if bytes_eqb ans (str "-") then Some [] else omap_all parse_answer (split_on "."%byte ans)) (fun al =>
+              Some (mkAttempt d x t al)))))
+      | _ => None end
+  | _ => None end.
+Definition revent_s (e : revent) : bytes :=
+  match e with
+  | EvCloseOld g => [] | EvSweep => [] | EvDial ok => str "D" ++ bool_s ok
+  | EvFrameReconnect g sid => str "R" ++ dec g ++ str ":" ++ dec sid | EvFrameAuth g => str "A" ++ dec g
+  | EvRecovered => str "OK" | EvSleep => str "Z" | EvGiveUp => str "GU"
+  end.
+Definition run_rc (op : bytes) (args : list bytes) : bytes :=
+  if bytes_eqb op (str "rc.run") then
+    match args with
+    | mx :: gt :: sess :: cnt :: atts =>
+        match undec mx, unbool gt, (if bytes_eqb sess (str "-") then Some None else option_map Some (undec sess)), undec cnt, omap_all parse_attempt atts with
+        | Some mx, Some gt, Some sess, Some cnt, Some atts =>
+            let '(r, s', evs) := recover (mkRcfg mx gt) (mkRs sess cnt 0 1) atts in
+            (* the observable projection: dials, frames with their connection, back-offs, the two callbacks *)
+            join sp (filter (fun b => negb (bytes_eqb b [])) (map revent_s evs)) ++ str " | " ++
+            (match r with RRecovered => str "recovered" | RGaveUp => str "gaveup" | RStillTrying => str "trying" end)
+        | _, _, _, _, _ => bad end
+    | _ => bad end
+  else bad.
+
 Definition run_line (line : bytes) : bytes :=
   match words line with
   | op :: args =>
@@ -523,6 +565,7 @@ Definition run_line (line : bytes) : bytes :=
       else if starts_with (str "wt.") op then run_wt op args
       else if starts_with (str "dp.") op then run_dp op args
       else if starts_with (str "wp.") op then run_wp op args
+      else if starts_with (str "rc.") op then run_rc op args
       else bad
   | [] => bad
   end.
